@@ -357,7 +357,15 @@ pub fn c10_case(cfg: &Cfg, rep: &mut Report, case_seed: u64) {
 }
 
 pub fn c10_large(_cfg: &Cfg, rep: &mut Report, case_seed: u64) {
-    let (g, text, sem) = large_case(case_seed);
+    // (every other case: a mid-size framework whose undecided block has random conditions, all procedures)
+    let mid = case_seed % 2 == 1;
+    let (g, text, sem) = if mid {
+        let m = crate::sem::mid_case(case_seed, false);
+        let sem = oracle::sem::BigSem::new(&m.g.ac);
+        (m.g, m.text, sem)
+    } else {
+        large_case(case_seed)
+    };
     let mut rng = Rng::new(case_seed ^ 0xC10);
     let (grounded, _) = sem.grounded_rounds();
     let undecided = grounded.iter().filter(|v| **v == VU).count();
@@ -368,6 +376,16 @@ pub fn c10_large(_cfg: &Cfg, rep: &mut Report, case_seed: u64) {
     let mut all: Vec<(String, Answers)> = Vec::new();
     let mut oracle: BTreeMap<&'static str, Vec<Vec<Val>>> = BTreeMap::new();
     oracle.insert("grounded", vec![grounded]);
+    // the definitional answers among the refinements of the grounded interpretation (few statements stay undecided)
+    if let Some(c) = sem.complete(8) {
+        oracle.insert("complete", c);
+        rep.count("large_cases_with_definitional_complete_models", 1);
+    }
+    if let Some(t) = sem.two_valued(12) {
+        oracle.insert("stable", t.iter().filter(|v| sem.is_stable(v)).cloned().collect());
+        oracle.insert("twovalued", t);
+        rep.count("large_cases_with_definitional_stable_models", 1);
+    }
     for v in 0..3 {
         let gv = if v == 0 {
             g.clone()
@@ -393,7 +411,7 @@ pub fn c10_large(_cfg: &Cfg, rep: &mut Report, case_seed: u64) {
             return;
         };
         // complete / stable enumeration is feasible because few statements stay undecided
-        match answers(&o, &perm, false, SMALL_BUDGET * 50) {
+        match answers(&o, &perm, mid, SMALL_BUDGET * 50) {
             Ok(a) => all.push((vname, a)),
             Err((name, c)) => {
                 rep.violation(&format!("variant-call-large:{}", c.kind()), format!("{}: {}", name, c.describe()), replay);
